@@ -3,6 +3,8 @@ import itertools
 
 from pmc import alpha_ec as AE
 from pmc import alpha_rsa, art, world
+from pmc import gen_ec as G
+from pmc.refs import nt
 from pmc.core import Result, Task, guarded
 
 ID = 'C18'
@@ -289,7 +291,54 @@ def ecdsa_heavy(batch):
   return r
 
 
-CASES = {'rsa': case_rsa, 'ec': case_ec, 'ecdsa': case_ecdsa}
+def case_ecdsa_size(check, cid, counts):
+  """`counts[i]` distinct well-formed signatures of issuer i (valid keys i+1 times G) on one
+  curve, interleaved round-robin."""
+  w = world.load()
+  n = G.curve(cid).n
+  per = []
+  for i, cnt in enumerate(counts):
+    q = G.gmul(cid, 1000003 * (i + 1))
+    per.append([art.ecdsa_sig(cid, q[0], q[1],
+                              nt.drbg_int('c18sz-r-%d-%d-%d' % (cid, i, j), 600) % (n - 1) + 1,
+                              nt.drbg_int('c18sz-s-%d-%d-%d' % (cid, i, j), 600) % (n - 1) + 1,
+                              nt.drbg('c18sz-h-%d-%d' % (i, j), 32)) for j in range(cnt)])
+  sigs = []
+  for j in range(max(counts) if counts else 0):
+    for lst in per:
+      if j < len(lst):
+        sigs.append(lst[j])
+  cls = dict(_ecdsa_checks(w))[check]
+  st, ret = guarded(cls().Check, sigs)
+  if st == 'exc':
+    return ['%s on %s distinct signatures per issuer (curve id %d) raised %s' % (check, counts,
+                                                                                cid, ret)]
+  if not _isbool(ret):
+    return ['%s on %s signatures per issuer returned %r (not a bool)' % (check, counts, ret)]
+  return []
+
+
+SIZE_EDGES = [71, 72, 73, 95, 96, 97, 119, 120, 121, 143, 144, 145, 239, 240, 241]
+
+
+def ecdsa_sizes(check, cid, sizes, layouts=3):
+  r = Result()
+  for N in sizes:
+    for counts in ([N], [N, 1], [N, N])[:layouts] if N else ([0],):
+      bad = case_ecdsa_size(check, cid, counts)
+      r.ev('ecdsa/size/%s' % ('multiple-of-24' if N and N % 24 == 0 else (
+          'small' if N < 24 else 'other')), True)
+      for b in bad:
+        r.violation(b, {'fn': 'ecdsa_size', 'args': {'check': check, 'cid': cid,
+                                                     'counts': counts}})
+    if len(r.violations) > 6:
+      break
+  r.sample({'check': check, 'curve_id': cid, 'signatures_per_issuer': sizes[:8] + ['...'],
+            'issuer_layouts': ['one issuer', 'plus a second issuer with 1', 'two issuers'] })
+  return r
+
+
+CASES = {'rsa': case_rsa, 'ec': case_ec, 'ecdsa': case_ecdsa, 'ecdsa_size': case_ecdsa_size}
 
 
 def plan(tier, seed):
@@ -357,6 +406,31 @@ def plan(tier, seed):
                     'lengths x 4 issuer keys; batches of size 0..2 incl. duplicates; 9 checks '
                     '(quick: every 3rd signature, every 5th pair; entry point and issuer check on '
                     'single signatures)', weight=5e8 if slow else 5e7))
+  for nm, _ in _ecdsa_checks(w):
+    layouts = 3
+    if thorough:
+      szs = list(range(0, 51)) + (SIZE_EDGES if nm != 'CheckLCGNonceJavaUtilRandom' else [])
+    elif nm == 'CheckLCGNonceJavaUtilRandom':
+      szs, layouts = [0, 1, 2, 23, 24, 25], 1
+    elif nm == 'CheckLCGNonceGMP':
+      szs = list(range(0, 27)) + [47, 48, 49]
+    elif nm == 'CheckCr50U2f':
+      szs = list(range(0, 51)) + [71, 72, 73, 95, 96, 97, 119, 120, 121]
+    elif nm == 'CheckNonceMSB':
+      szs = list(range(0, 27)) + [47, 48, 49, 71, 72, 73]
+    else:
+      szs = list(range(0, 27)) + [47, 48, 49]
+    nparts = 8 if thorough else 4
+    for part in range(nparts):
+      T.append(Task('ecdsa-batch-sizes', 'ecdsa_sizes',
+                    {'check': nm, 'cid': rot[(seed + part) % 9] if thorough or (
+                         part and nm != 'CheckCr50U2f') else 2,
+                     'sizes': szs[part::nparts], 'layouts': layouts},
+                    bound='every number 0..50 of distinct signatures per issuer and the values '
+                    'around multiples of 24 (window sizes 24/48/120 of the nonce checks; up to '
+                    '241 in the thorough tier, fewer for the two slow LCG checks in the quick '
+                    'tier) x {one issuer, +1 signature of a second, two issuers} x 7 nonce '
+                    'checks', weight=3e8))
   cidh = rot[seed % 9]
   hs = [[[cidh, 'rnd', 'mid', 32, 'valid'], [cidh, '1', 'mid', 20, 'x+p']]]
   if thorough:
